@@ -23,6 +23,8 @@ THEOREM_OF = {
     "bounded_by_timeout": "never blocking beyond its time-out (runtime; explored, not proved)",
     "canceled_never_delivered": "C18_canceled_never_delivered",
     "builder": "C18_build_round / C18_round_nothing_lost / C18_canceled_before_build (buildWithLimit round: fetched entries only, priorities, consecutive ids, cancelled skipped, nothing popped is lost, nothing left behind with an unbounded limit)",
+    "own_error": "C18_collapse_follower_result (an error is the call's own: time-out / cancellation of ITS context)",
+    "runloop": "C18_runloop_fifo_once (every appended callback runs exactly once, in order)",
     "harness": "harness",
 }
 
@@ -135,7 +137,7 @@ def main(tier, replay):
     classes = {k[6:]: n for k, n in stats.items() if k.startswith("class:")}
     cov.update(evaluations=stats.get("calls", 0) + stats.get("scenarios", 0),
                distinct_nontrivial=stats.get("distinct", 0),
-               rule="seeded scenarios of directed scenarios from corpus/C18 + 18 classes (plain / forward / streamfail / cancel / close / staleepoch / multiconn / rebreak / sendpanic / staleasync / builder / recvpanic / failpanic / twopools / nonbatch / asyncclose / limitbatch / limitstarve; MaxConcurrencyRequestLimit in {default,1,2,3,..} incl. whole batches of mixed priorities / cancelled entries built at once through the repo failpoint mockBatchClientSendDelay, second Take rounds): 1..72 concurrent callers, "
+               rule="seeded scenarios of direct differential of util/async.RunLoop on random re-entrant / concurrent Append scripts + directed scenarios from corpus/C18 + 20 classes (plain / forward / streamfail / cancel / close / staleepoch / multiconn / rebreak / sendpanic / staleasync / builder / recvpanic / failpanic / twopools / nonbatch / asyncclose / limitbatch / limitstarve / runloop (shared RunLoop, busy callbacks) / collapse (ResolveLock through NewReqCollapse(NewInterceptedClient(..)), leader cancelled); MaxConcurrencyRequestLimit in {default,1,2,3,..} incl. whole batches of mixed priorities / cancelled entries built at once through the repo failpoint mockBatchClientSendDelay, second Take rounds): 1..72 concurrent callers, "
                     "4 request types, priorities 0..16, 1..5 forwarded hosts, 1..4 connections, concurrency limit, batch policies, server side delay / reorder / "
                     "duplicate / unknown-id / never-answered responses, stream kills, server restarts, injected Send/Recv/stream-creation failures, cancellation, "
                     "time-outs, client / address close during traffic, sync calls with 30 s time-outs and SendRequestAsync calls without deadline (must complete in the drain phase), "
@@ -146,6 +148,7 @@ def main(tier, replay):
                returns={k[4:]: n for k, n in stats.items() if k.startswith("ret:")},
                model_step_histogram={k[5:]: n for k, n in stats.items() if k.startswith("step:")},
                outdated_responses=stats.get("outdated", 0),
+               runloop_scripts_compared=stats.get("runloop_scripts", 0),
                builder_rounds_compared=stats.get("rounds", 0), table_snapshots_compared=stats.get("table_checks", 0),
                recv_loop_panics_replayed=stats.get("recv_panics_expected", 0) + stats.get("step:FailPanic", 0),
                oracle_failures=len(oracle_fails), trace_rejections=len(rejects),
